@@ -162,6 +162,18 @@ def r1234_writer(ctx, chk):
                 chk.violation("C16.3", f.where(), "run_games computes %s but the report never states them" % sorted(written - read_keys), expected=sorted(written), found=sorted(read_keys),
                               construct="save_results unreported keys")
     # C16.4 path
+    if file_obj is not None and (file_obj[0] == "mcall" and file_obj[2] == "fdopen" or file_obj[0] == "call" and file_obj[1] == "os.fdopen") :
+        # os.fdopen(os.open(path, flags, mode), "w"): the flags decide whether an existing report is truncated
+        fargs = file_obj[3] if file_obj[0] == "mcall" else file_obj[2]
+        inner = fargs[0] if fargs else None
+        if inner is not None and (inner[0] == "mcall" and inner[2] == "open" or inner[0] == "call" and inner[1] == "os.open"):
+            iargs = inner[3] if inner[0] == "mcall" else inner[2]
+            flags = {t[2] for t in C02._sub(iargs[1]) if t[0] == "attr"} if len(iargs) > 1 else set()
+            if "O_TRUNC" not in flags or "O_APPEND" in flags:
+                chk.violation("C16.4", f.where(), "the report is opened with os.open flags %s: an existing report of the same name is not truncated, so the tail of an older, longer report survives "
+                              "after the new blocks" % sorted(flags), expected="open(path, 'w') or flags including O_TRUNC", found=sorted(flags), construct="save_results open without truncation")
+                return
+            file_obj = ("call", "open", (iargs[0], C("w")), ())
     if file_obj is not None and file_obj[0] == "call" and file_obj[1] == "open":
         path, mode = file_obj[2][0], (file_obj[2][1] if len(file_obj[2]) > 1 else C("r"))
         np = norm_path(path, fname_param)
